@@ -23,8 +23,8 @@
        created them;
      * SHARING: which references copy() and + share.
    The rewrite calls compress_mode_swaps / remove_non_adjacent_bs / copy(freeze_parameters=True)
-   are transcribed in Model/Heap.v ([hstep9]) and run by the correspondence check, but the
-   theorems of part 2 cover the twelve calls of [op] only.
+   (programs of [op9], Model/Rewrite.v) are covered as well: [hstep9] refines [step9], keeps the
+   invariant and writes to no pre-existing cell of any circuit other than its target.
 
    That the real objects have the sharing structure of the heap model is what the correspondence
    run checks: after every call of a generated history the value of EVERY live object is compared
@@ -33,7 +33,7 @@
 From Coq Require Import ZArith List Bool Arith Lia.
 From Coq Require Import PArith.
 From LW Require Import Base.Sx Base.Num Base.Mat Model.Circuit Model.World Proofs.WorldP
-     Model.Heap Proofs.HeapP Proofs.HeapP2 Proofs.HeapP3 Proofs.HeapMain.
+     Model.Rewrite Model.Heap Proofs.HeapP Proofs.HeapP2 Proofs.HeapP3 Proofs.HeapMain Proofs.HeapRw Proofs.HeapRw3.
 Import ListNotations.
 
 Theorem C08_call_changes_only_its_target :
@@ -157,6 +157,41 @@ Theorem C08_sharing_plus :
 Proof. exact (fun K o => @sharing_plus K o). Qed.
 Print Assumptions C08_sharing_plus.
 
+(* (c) sharing after add: every entry of the parent's list is one it had before, or a cell made by this
+   very call - add creates no sharing between the parent and the added circuit (or any other circuit);
+   together with C08_args_unchanged_no_reachable_cell_written: the added circuit is left exactly as it was *)
+Theorem C08_sharing_add :
+  forall (K : Type) (o : ops K) (e : env (K:=K)) (hw : hworld (K:=K)) (id sub : nat) (mode : Z) (g : bool) (c : hcirc),
+    inv hw -> pget (hw_pool hw) id = Some c -> snd (hstep o e hw (OAdd id sub mode g)) = Ok tt ->
+    exists c', pget (hw_pool (fst (hstep o e hw (OAdd id sub mode g)))) id = Some c' /\
+               forall a, In a (rd_list (hw_heap (fst (hstep o e hw (OAdd id sub mode g)))) (hc_spec c')) ->
+                         In a (rd_list (hw_heap hw) (hc_spec c)) \/ (h_next (hw_heap hw) <= a)%positive.
+Proof. exact (fun K o => @sharing_add K o). Qed.
+Print Assumptions C08_sharing_add.
+
+(* the rewrite calls as well: compress_mode_swaps, remove_non_adjacent_bs, copy(freeze_parameters=True) *)
+Theorem C08_every_call_incl_rewrites_refines_and_leaves_other_circuits_alone :
+  forall (K : Type) (o : ops K) (e : env (K:=K)) (hw : hworld (K:=K)) (x : op9 (K:=K)),
+    inv hw ->
+    inv (fst (hstep9 o e hw x)) /\
+    abs (fst (hstep9 o e hw x)) = fst (step9 o true e (abs hw) x) /\
+    snd (hstep9 o e hw x) = snd (step9 o true e (abs hw) x) /\
+    (forall j cj, pget (hw_pool hw) j = Some cj -> j <> target9 x ->
+       pget (hw_pool (fst (hstep9 o e hw x))) j = Some cj /\
+       forall a, In a (reach (hw_heap hw) cj) ->
+         ~ In a (h_log (hw_heap (fst (hstep9 o e hw x)))) /\
+         hget (hw_heap (fst (hstep9 o e hw x))) a = hget (hw_heap hw) a).
+Proof. exact (fun K o => @hstep9_refines K o). Qed.
+Print Assumptions C08_every_call_incl_rewrites_refines_and_leaves_other_circuits_alone.
+
+Theorem C08_heap_history_with_rewrites_refines_functional_history :
+  forall (K : Type) (o : ops K) (e : env (K:=K)) (pr : list (op9 (K:=K))),
+    inv (fst (hrun9 o e hw_empty pr)) /\
+    abs (fst (hrun9 o e hw_empty pr)) = fst (run9f o e [] pr) /\
+    snd (hrun9 o e hw_empty pr) = snd (run9f o e [] pr).
+Proof. exact (fun K o e pr => @hrun9_refines K o e pr hw_empty (@inv_empty K)). Qed.
+Print Assumptions C08_heap_history_with_rewrites_refines_functional_history.
+
 (* ----------------------- non-vacuity: a concrete history ----------------------- *)
 Definition zops : ops Z := mkOps Z 0%Z 1%Z Z.add Z.mul Z.sub Z.opp (fun x => x) (fun x => x) Z.eqb Z.leb (fun z => z).
 Definition zenv : env (K:=Z) := fun _ => (0%Z, 0%Z, 0%Z).
@@ -206,3 +241,14 @@ Proof. vm_compute. split; reflexivity. Qed.
 Example C08_demo_rejected_call :
   snd (hstep zops zenv (fst (hrun zops zenv hw_empty (firstn 7 demo))) (OBs 1 9%Z None one nol Rx)) = Err ModeRangeError.
 Proof. vm_compute. reflexivity. Qed.
+
+(* a history with rewrite calls: 5 = 4.copy(); compress on the copy must not touch 4 *)
+Definition demo9 : list (op9 (K:=Z)) :=
+  [ Base (ONew 4 3); Base (OSwaps 4 [(0%Z, 1%Z); (1%Z, 0%Z)]); Base (OSwaps 4 [(1%Z, 2%Z); (2%Z, 1%Z)]);
+    Base (OBs 4 0%Z (Some 2%Z) one nol Rx); Base (OCopy 5 4); OCompress 5; ONonAdj 4; OCopyFrozen 6 5 ].
+Example C08_demo9 :
+  let hw := fst (hrun9 zops zenv hw_empty demo9) in
+  snd (hrun9 zops zenv hw_empty demo9) = [Ok tt; Ok tt; Ok tt; Ok tt; Ok tt; Ok tt; Ok tt; Ok tt] /\
+  length (spec_refs hw 4) = 5 /\ length (spec_refs hw 5) = 2 /\ length (spec_refs hw 6) = 2 /\
+  forallb (fun a => negb (existsb (Pos.eqb a) (spec_refs hw 4 ++ spec_refs hw 6))) (spec_refs hw 5) = true.
+Proof. vm_compute. repeat split. Qed.
